@@ -20,7 +20,7 @@ INFO = {
     "bounds": {
         "quick": "d=2 shapes (4,4),(3,5),(5,2); d=3 shapes (3,3,3),(2,3,4) [(2,2,3)]; batch<=2; in/out channels<=2 (unequal); k+k'<=3 (d=2), <=2 (d=3); "
                  "padding kinds TORUS/None/SAME/VALID/int/explicit(asymmetric); torus flag vectors incl. mixed; stride 1,2,(1,2); "
-                 "rhs_dilation 1,2; lhs_dilation off/2; filter sides 3,2,1,(3,1),(2,3): pairwise-covering core + seeded sample (~90 cells)",
+                 "rhs_dilation 1,2 (+ 8 cells whose TORUS halo exceeds the image side: dilations 3..7 on sides 2..4); lhs_dilation off/2; filter sides 3,2,1,(3,1),(2,3): pairwise-covering core + seeded sample (~90 cells)",
         "thorough": "same axes, core + 1200 seeded cells; all 2^d torus-flag vectors",
     },
     "outside": ["float32 rounding / precision flags", "shapes beyond the bound"],
@@ -125,8 +125,25 @@ def _zero_wrap(c):
     return wrap, zp
 
 
+def _big_halo_cells():
+    """TORUS wrap with a halo larger than the image side (several periods): ((M-1)//2)*rhs_dilation > N on a toroidal axis."""
+    def mk(D, shape, fshape, torus, kk, rdil, pad, fn="convolve", chan=(1, 1, 1), stride=None):
+        return {"D": D, "shape": shape, "fshape": fshape, "torus": torus, "kk": kk, "stride": stride or (1,) * D, "rdil": rdil, "ldil": None,
+                "pad": pad, "chan": chan, "fn": fn}
+    return [
+        mk(2, (3, 4), (3, 3), (True, True), (0, 0), (4, 1), "TORUS"),
+        mk(2, (4, 4), (3, 3), (True, True), (0, 1), (4, 4), "TORUS"),            # halo == N exactly
+        mk(2, (2, 5), (5, 3), (True, False), (1, 0), (2, 1), "none"),            # halo 4 = 2N
+        mk(2, (3, 5), (3, 3), (True, False), (0, 0), (5, 2), "TORUS", fn="object"),
+        mk(2, (2, 3), (3, 3), (True, True), (0, 0), (5, 1), "none", chan=(2, 1, 2)),  # halo 2N+1
+        mk(2, (3, 3), (3, 3), (False, True), (1, 1), (1, 7), "TORUS", fn="contract", stride=(1, 2)),
+        mk(3, (2, 2, 3), (3, 3, 3), (True, True, True), (0, 0), (3, 1, 1), "TORUS"),
+        mk(3, (2, 3, 2), (3, 1, 3), (True, False, True), (0, 1), (1, 1, 5), "none"),
+    ]
+
+
 def cells(tier, seed):
-    out = []
+    out = [c for c in _big_halo_cells() if _valid(c)]
     for D in (2, 3):
         axes = _mk_cells(D, tier, seed)
         core = pairwise_cover(axes, seed=11 + D)
